@@ -77,6 +77,8 @@ func runC08(c *report.Ctx) {
 	c.Clause("2 late exit notification")
 	checkWatcherGuard(c)
 	checkNoLateWriteOfGenerationState(c)
+	checkInvokeRefusalPath(c) // Clear after the sandbox reset: nothing of the old generation is queued behind it
+	checkShutdownTop(c)       // exits during the teardown are marked as expected until the teardown is over
 }
 
 // checkNoLateWriteOfGenerationState: the invoke goroutine writes the cached init error (state that the
